@@ -92,6 +92,10 @@ func C13(env *Env) {
 	env.c13Structure(e)
 	env.c13Unmarshal(e)
 	env.c13Asserts(e)
+	if entry := env.fn("pcs", "PckCertificateExtensions"); entry != nil {
+		env.errorsNotLost("C13/ERRFLOW", env.calleesBelow(entry))
+	}
+	r.Floor("C13/ERRFLOW", 10)
 	r.Floor("C13/OID", 8)
 	r.Floor("C13/SEL", 5)
 	r.Floor("C13/TCB", 5)
